@@ -945,6 +945,8 @@ func (in *Interp) makeSample(status string) *Sample {
 }
 
 // Explore runs the harness function over all paths.
+const maxTermsPerWorker = 600000
+
 func Explore(prog *ssa.Program, fn *ssa.Function, opts *Options) *HarnessResult {
 	res := &HarnessResult{Name: fn.Name(), Violations: map[string]*Violation{}, Inconclusive: map[string]int{}, Reached: map[string]int{},
 		Notes: map[string]int{}, Funcs: map[string]bool{}, Stubs: map[string]int{}, GoSkipped: map[string]int{}}
@@ -977,6 +979,19 @@ func Explore(prog *ssa.Program, fn *ssa.Function, opts *Options) *HarnessResult 
 			solver.Fallbacks = opts.Fallbacks
 			in := NewInterp(prog, solver, opts)
 			in.ex = ex
+			flush := func() {
+				ex.mu.Lock()
+				for f := range in.funcsSeen {
+					res.Funcs[f.String()] = true
+				}
+				for k, v := range in.stubsUsed {
+					res.Stubs[k] += v
+				}
+				for k, v := range in.goSkipped {
+					res.GoSkipped[k] += v
+				}
+				ex.mu.Unlock()
+			}
 			for {
 				p, ok := ex.pop()
 				if !ok {
@@ -984,20 +999,19 @@ func Explore(prog *ssa.Program, fn *ssa.Function, opts *Options) *HarnessResult 
 				}
 				in.runPath(fn, p)
 				ex.done()
+				// the hash-consed term table only grows: start over with a fresh interpreter
+				// (globals are re-initialised from the package initialisers) when it gets large
+				if len(in.tt.tab) > maxTermsPerWorker {
+					flush()
+					in = NewInterp(prog, solver, opts)
+					in.ex = ex
+				}
 			}
+			flush()
 			ex.mu.Lock()
 			res.Queries += solver.Queries
 			res.FallbackAnswers += solver.FallbackN
 			res.SolverTime += solver.Time
-			for f := range in.funcsSeen {
-				res.Funcs[f.String()] = true
-			}
-			for k, v := range in.stubsUsed {
-				res.Stubs[k] += v
-			}
-			for k, v := range in.goSkipped {
-				res.GoSkipped[k] += v
-			}
 			ex.mu.Unlock()
 		}(w)
 	}
